@@ -17,7 +17,7 @@ let run () = iter_lines (fun line ->
   match split_on '|' (String.sub line 2 (String.length line - 2)) with
   | [head; gen; pk; same; vk] ->
     (match split_on ' ' head with
-     | [fmt; esc; upd; _expr; code; out] ->
+     | [fmt; esc; upd; expr_hex; code; out] ->
        let cram = (fmt = "c") in
        let md = if esc = "a" then Ascii else Unicode in
        let outb = bytes_of_hex out in
@@ -37,6 +37,31 @@ let run () = iter_lines (fun line ->
                let rec pre a b = (match a, b with _, [] -> true | x :: a', y :: b' -> x = y && pre a' b' | [], _ -> false) in
                pre hay need || contains_seq t need) in
          if not (contains_seq dl want) then report "DIFF:generated-lines" "the expectation lines in the generated test are not the model's" line
+       end;
+       (* Cram, create flavour: the WHOLE generated document is the rendering of the model's grammar element
+          (C09_cram_test_reads_back), with or without the title line *)
+       if cram && upd = "0" && gen <> "-" then begin
+         let doc = (match utf8_decode (bytes_of_hex gen) with Some t -> t | None -> []) in
+         let dl = str_lines doc in
+         let expr_lines = (let rec split cur acc = function
+             | [] -> List.rev (List.rev cur :: acc)
+             | c :: r -> if int_of_n c = 10 then split [] (List.rev cur :: acc) r else split (c :: cur) acc r in split [] [] (bytes_of_hex expr_hex)) in
+         let cmd, conts = (match expr_lines with c :: r -> (c, r) | [] -> ([], [])) in
+         let title = (match dl with t :: _ when not (starts_with_str t "  ") -> Some t | _ -> None) in
+         let model = render_cram (gen_cram_doc md title cmd conts lines (n_of_int (int_of_string code))) in
+         if model <> dl then report "DIFF:generated-document" "the generated Cram document is not the rendering of the model's test block" line
+       end;
+       (* Markdown, create flavour: `# title`, blank, fenced scrut block (C09_markdown_test_reads_back) *)
+       if (not cram) && upd = "0" && gen <> "-" then begin
+         let doc = (match utf8_decode (bytes_of_hex gen) with Some t -> t | None -> []) in
+         let dl = str_lines doc in
+         let expr_lines = (let rec split cur acc = function
+             | [] -> List.rev (List.rev cur :: acc)
+             | c :: r -> if int_of_n c = 10 then split [] (List.rev cur :: acc) r else split (c :: cur) acc r in split [] [] (bytes_of_hex expr_hex)) in
+         let cmd, conts = (match expr_lines with c :: r -> (c, r) | [] -> ([], [])) in
+         let title = (match dl with t :: _ when starts_with_str t "# " -> Some (List.tl (List.tl t)) | _ -> None) in
+         let model = render_md (gen_md_doc md title cmd conts lines (n_of_int (int_of_string code))) in
+         if model <> dl then report "DIFF:generated-document" "the generated Markdown document is not the rendering of the model's title and test block" line
        end;
        (* known classes *)
        let first_gt = (match lines with l :: _ -> starts_with_str l "> " | [] -> false) in
